@@ -329,7 +329,13 @@ func canonNumber(s string) string {
 	if err != nil {
 		return s
 	}
-	return strconv.FormatFloat(f, 'g', -1, 64)
+	g := strconv.FormatFloat(f, 'g', -1, 64)
+	if intRe.MatchString(g) {
+		// "1.0", "2e0": integral in value but not an integer literal; decoders into integer types tell
+		// the two apart, so the canonical form must too
+		return g + ".0"
+	}
+	return g
 }
 
 // hasDupKeys walks the token stream and reports an object with a repeated key.
@@ -502,17 +508,23 @@ func jsonShape(p *Pkg, c *Case) string {
 	if t.Kind() != reflect.Struct {
 		return "not-a-struct"
 	}
-	var b strings.Builder
+	var toks []string
 	for i := 0; i < t.NumField(); i++ {
 		f := t.Field(i)
 		if f.Name == "AdditionalProperties" || f.Anonymous {
 			continue
 		}
-		if isWrapper(f.Type, "Maybe") {
-			b.WriteByte('O')
-		} else {
-			b.WriteByte('R')
+		tok, ft := "R", f.Type
+		if isWrapper(ft, "Maybe") {
+			tok = "O"
+			if vf, ok := ft.FieldByName("Value"); ok {
+				ft = vf.Type
+			}
 		}
+		if isWrapper(ft, "Nullable") {
+			tok += "n"
+		}
+		toks = append(toks, tok)
 	}
-	return "shape=" + b.String()
+	return "shape=" + strings.Join(toks, ",")
 }
